@@ -51,6 +51,12 @@ class BidsFileGroup:
             sidecar_list = self.get_sidecars_from_path(bids_obj)
             if sidecar_list:
                 bids_obj.sidecar = self.sidecar_dict[sidecar_list[-1]]
+                if self.get_sidecars_from_path(bids_obj.sidecar) != sidecar_list:
+                    # The deepest sidecar was merged along its own inheritance chain, which can miss sidecars that apply
+                    # to this data file only (e.g. a root task-xx_events.json for sub-01/sub-01_events.json).
+                    merged_sidecar = BidsSidecarFile(sidecar_list[-1])
+                    merged_sidecar.set_contents(content_info=sidecar_list)
+                    bids_obj.sidecar = merged_sidecar
 
     def get_sidecars_from_path(self, obj):
         """ Return applicable sidecars for the object.
